@@ -374,7 +374,11 @@ def extract_outermost(
         errors: List[Exception] = []
         try:
             return next(extract_iter(stackitem, errors))
-        except StopIteration as ex:
+        except Exception as ex:
+            if not isinstance(ex, StopIteration):
+                # Something outside the per-hook error handling failed; report it
+                # together with what was recorded before it, as extract() does
+                errors.append(ex)
             if len(errors) > 1:  # pragma: no cover
                 # Rationale for 'no cover': as currently written, only one error can
                 # be saved while unwrapping, and errors raised at other points wouldn't
@@ -385,6 +389,7 @@ def extract_outermost(
             if errors:
                 raise errors[0]
             else:
+                assert isinstance(ex, StopIteration)
                 raise RuntimeError(
                     f"Couldn't extract a frame from {stackitem!r}: unwrapping only "
                     f"reached {ex.value!r}"
